@@ -6,6 +6,8 @@ pub mod refm;
 pub mod run;
 pub mod sched;
 pub mod c18;
+pub mod c_engine;
+pub mod e4;
 pub mod c01;
 pub mod c02;
 pub mod den;
@@ -15,6 +17,10 @@ pub fn dispatch(id: &str, ctx: &mut ev::Ctx) -> bool {
     match id {
         "C01" => c01::run(ctx),
         "C02" => c02::run(ctx),
+        "C05" => c_engine::run_c05(ctx),
+        "C06" => c_engine::run_c06(ctx),
+        "C07" => c_engine::run_c07(ctx),
+        "C08" => c_engine::run_c08(ctx),
         "C18" => c18::run(ctx),
         _ => return false,
     }
